@@ -3,10 +3,12 @@
 package pipeline
 
 import (
+	"errors"
 	"encoding/json"
 
 	"github.com/buildkite/go-pipeline/internal/env"
 	"github.com/buildkite/go-pipeline/ordered"
+	"github.com/buildkite/go-pipeline/warning"
 	"gopkg.in/yaml.v3"
 )
 
@@ -22,6 +24,7 @@ func init() {
 	vpRegister("c19_warnings", vpH_c19_warnings)
 	vpRegister("c19_obs_extras", vpH_c19_obs_extras)
 	vpRegister("c19_calls", vpH_c19_calls)
+	vpRegister("c19_warn_print", vpH_c19_warn_print)
 }
 
 func vpYStr(v string) *yaml.Node { return &yaml.Node{Kind: yaml.ScalarNode, Tag: "!!str", Value: v} }
@@ -293,4 +296,38 @@ func vpH_c19_calls() {
 		want = "c !" // the block's own name is not yet defined while its value is expanded
 	}
 	vpAssert(c.Steps[0].(*CommandStep).Command == want, "earlier interpolations of other pipelines leave no definitions behind")
+}
+
+// Printing a warning is an observation: after Error() (what logging it does)
+// the warning identifies the same problems as before - every unknown step type
+// and every failed inference - however many steps it is about (sizes next to
+// the integer constants of the warning code).
+func vpH_c19_warn_print() {
+	n := vpBoundarySize("*warning.go,*steps.go", vpParam("max"))
+	at := vpInt(0, 2) // where the one step of the other kind stands: first, last, in the middle
+	var seq []any
+	for i := 0; i < n; i++ {
+		seq = append(seq, "mystery") // unknown scalar: ErrUnknownStepType
+	}
+	if n > 0 {
+		pos := 0
+		switch at {
+		case 1:
+			pos = n - 1
+		case 2:
+			pos = n / 2
+		}
+		seq[pos] = vpMapOf("llama", "x") // no kind key: ErrStepTypeInference
+	}
+	p := new(Pipeline)
+	err := ordered.Unmarshal(vpMapOf("steps", seq), p)
+	if n == 0 {
+		return
+	}
+	vpAssert(warning.Is(err) && errors.Is(err, ErrStepTypeInference) && (n < 2 || errors.Is(err, ErrUnknownStepType)), "the warning identifies the unknown steps and the failed inference")
+	before := vpSnapshot(err)
+	_ = err.Error()
+	vpAssert(vpUnchanged(err, before), "printing a warning leaves it as it was")
+	vpAssert(errors.Is(err, ErrStepTypeInference) && (n < 2 || errors.Is(err, ErrUnknownStepType)), "a warning that was printed still identifies the same problems")
+	vpAssert(len(p.Steps) == n, "all steps are there")
 }
